@@ -226,6 +226,28 @@ def parseBReq (f : List String) : Option (BLayer × BReq) :=
       | none => none
   | _ => none
 
+def parseHPrefix : String → Option HPrefix
+  | "none" => some .none | "known" => some .known | "unknown" => some .unknown | "malformed" => some .malformed
+  | "odd" => some .odd | "huge" => some .huge | _ => none
+
+def parseHRound : String → Option HRound
+  | "zero" => some .zero | "one" => some .one | "last" => some .last | "beyond" => some .beyond | "far" => some .far
+  | "max" => some .max | "overflow" => some .overflow | "neg" => some .neg | "alpha" => some .alpha | _ => none
+
+def parseHEp (s : String) : Option HEp :=
+  match s with
+  | "latest" => some .latest | "info" => some .info | "health" => some .health | "chains" => some .chains
+  | _ => match dropPrefix s "round:" with
+    | some r => (parseHRound r).map .round
+    | none => none
+
+def hStep (ph : BPhase) (pre : HPrefix) (ep : HEp) (k : Nat) : String :=
+  let o := httpHandle ph pre ep
+  if o = .err && k % probeEvery ≠ 0 then s!"{o.show} bplock=free hlock=free ci=- pb=-" else
+  let ci := bHandle .bp ph probeChainInfo
+  let pb := bHandle .bp ph probePartial
+  s!"{o.show} bplock=free hlock=free ci={ci.show} pb={pb.show}"
+
 def bStep (ph : BPhase) (l : BLayer) (r : BReq) (k : Nat) : String :=
   let o := bHandle l ph r
   if o = .err && k % probeEvery ≠ 0 then s!"{o.show} bplock=free hlock=free ci=- pb=-" else
@@ -246,6 +268,11 @@ def dispatchStep (s : DispatchState) (f : List String) : DispatchState × String
     match parseBPhase p with
     | some p => ({ s with bphase := some p, bOps := 0 }, "ok")
     | none => (s, "bad-op")
+  | ["http", pre, ep] =>
+    match s.bphase, parseHPrefix pre, parseHEp ep with
+    | some ph, some pre, some ep => ({ s with bOps := s.bOps + 1 }, hStep ph pre ep (s.bOps + 1))
+    | none, _, _ => (s, "bad-op no bphase")
+    | _, _, _ => (s, "bad-op")
   | _ =>
     match parseDkgReq f with
     | some (l, r) =>
